@@ -47,6 +47,20 @@ def convoluteCk (g f : Expr) (c : Nat) (st : SStack) : Except Err (Expr × Nat) 
     else .error (sideErr "fresh composition variable")
   | _, _ => .error (.internal "Exception")
 
+/-- `First(seq, …)`: `some (some seq)`; `First()`: `some none`; anything else: `none` -/
+def firstArg? : Expr → Option (Option Expr)
+  | .call (.name n) args _ _ => if n = "First" then (match args with | first :: _ => some (some first) | [] => some Option.none) else Option.none
+  | _ => Option.none
+
+/-- a call of a function by name: its name and positional arguments -/
+def opCall? : Expr → Option (String × List Expr)
+  | .call (.name n) pargs _ _ => some (n, pargs)
+  | _ => Option.none
+
+def isLam : Expr → Bool
+  | .lam _ _ => true
+  | _ => false
+
 mutual
 def simpCk : Nat → SStack → Nat → Expr → Except Err (Expr × Nat)
   | 0, _, _, _ => .error .fuel
@@ -59,13 +73,13 @@ def simpCk : Nat → SStack → Nat → Expr → Except Err (Expr × Nat)
       let (b'', c2) ← simpCk fuel st c1 b'
       pure (.lam ps' b'', c2)
     | .attr v a =>
-      match v with
-      | .call (.name "First") (first :: _) _ _ =>
+      match firstArg? v with
+      | some (some first) =>
         let x := argName c
         let select := makeSelect first (.lam [x] (.attr (.name x) a))
         simpCk fuel st (c + 1) (fcall "First" [select])
-      | .call (.name "First") [] _ _ => .error (.internal "IndexError")
-      | _ => do
+      | some Option.none => .error (.internal "IndexError")
+      | Option.none => do
         let (v', c1) ← simpCk fuel st c v
         match v' with
         | .dict ks vs =>
@@ -77,15 +91,15 @@ def simpCk : Nat → SStack → Nat → Expr → Except Err (Expr × Nat)
       let (v', c1) ← simpCk fuel st c v
       let (s', c2) ← simpCk fuel st c1 s
       let generic : Except Err (Expr × Nat) :=
-        match v' with
-        | .call (.name "First") (first :: _) _ _ =>
+        match firstArg? v' with
+        | some (some first) =>
           let x := argName c2
           let select := makeSelect first (.lam [x] (.sub (.name x) s'))
           if !(fv s').contains x && keyFree st (fcall "First" [select]) then
             simpCk fuel st (c2 + 1) (fcall "First" [select])
           else .error (sideErr "subscript pushed under First")
-        | .call (.name "First") [] _ _ => .error (.internal "IndexError")
-        | _ => .ok (.sub v' s', c2)
+        | some Option.none => .error (.internal "IndexError")
+        | Option.none => .ok (.sub v' s', c2)
       match s' with
       | .const (.int n) =>
         (match v' with
@@ -123,14 +137,15 @@ def simpCk : Nat → SStack → Nat → Expr → Except Err (Expr × Nat)
     | .op k args => do let (as', c1) ← simpLCk fuel st c args; pure (.op k as', c1)
     | .comp .. => .error (sideErr "comprehension (lowered by the sugar pass before the simplifier runs)")
     | .call f args kwn kwv =>
+      let generic (headOK : Bool) : Except Err (Expr × Nat) := do
+        let (f', c1) ← simpCk fuel st c f
+        let (as', c2) ← simpLCk fuel st c1 args
+        let (ks', c3) ← simpLCk fuel st c2 kwv
+        if headOK then pure (.call f' as' kwn ks', c3) else .error (sideErr "a substituted name in callee position")
       match f with
       | .lam ps body =>
         let npos := args.length
-        if !distinctS ps || npos > ps.length || !distinctS kwn || !sameSet kwn (ps.drop npos) then do
-          let (f', c1) ← simpCk fuel st c (.lam ps body)
-          let (as', c2) ← simpLCk fuel st c1 args
-          let (ks', c3) ← simpLCk fuel st c2 kwv
-          pure (.call f' as' kwn ks', c3)
+        if !distinctS ps || npos > ps.length || !distinctS kwn || !sameSet kwn (ps.drop npos) then generic true
         else do
           let (ps', body', c1) ← makeArgsUniqueCk ps body c st
           let (as', c2) ← simpLCk fuel st c1 args
@@ -138,32 +153,26 @@ def simpCk : Nat → SStack → Nat → Expr → Except Err (Expr × Nat)
           let ren := ps.zip ps'
           let frame : SFrame :=
             ((ps'.take npos).zip as') ++ (kwn.zip ks').map (fun p => ((renGet p.1 ren).getD p.1, p.2))
-          if as'.all (keyFree st) && ks'.all (keyFree st) && as'.all (fun a => disjoint ps' (fv a))
-              && ks'.all (fun a => disjoint ps' (fv a)) && kwn.length == kwv.length then
+          if kwn.length == kwv.length then
             simpCk fuel (frame :: st) c3 body'
           else .error (sideErr "arguments of an inlined lambda")
-      | .attr (.call (.name "First") fargs _ _) m =>
-        match fargs with
-        | seq :: _ =>
+      | .attr v m =>
+        match firstArg? v with
+        | some (some seq) =>
           let x := argName c
           let call := Expr.call (.attr (.name x) m) args kwn kwv
           let select := makeSelect seq (.lam [x] call)
           if !(freeNamesL [] args).contains x && !(freeNamesL [] kwv).contains x then
             simpCk fuel st (c + 1) (fcall "First" [select])
           else .error (sideErr "method call pushed under First")
-        | [] => .error (.internal "IndexError")
-      | .name "Select" => callSelectCk fuel st c args kwn kwv
-      | .name "SelectMany" => callSelectManyCk fuel st c args kwn kwv
-      | .name "Where" => callWhereCk fuel st c args kwn kwv
-      | _ => do
-        let (f', c1) ← simpCk fuel st c f
-        let (as', c2) ← simpLCk fuel st c1 args
-        let (ks', c3) ← simpLCk fuel st c2 kwv
-        let headOK := match f with
-          | .name n => !(stackKeys st).contains n
-          | .attr _ m => !(opNames.contains m) || builtinOps.contains m
-          | _ => true
-        if headOK then pure (.call f' as' kwn ks', c3) else .error (sideErr "a substituted name in callee position")
+        | some Option.none => .error (.internal "IndexError")
+        | Option.none => generic (!(opNames.contains m) || builtinOps.contains m)
+      | .name n =>
+        if n = "Select" then callSelectCk fuel st c args kwn kwv
+        else if n = "SelectMany" then callSelectManyCk fuel st c args kwn kwv
+        else if n = "Where" then callWhereCk fuel st c args kwn kwv
+        else generic (!(stackKeys st).contains n)
+      | _ => generic true
 def simpLCk : Nat → SStack → Nat → List Expr → Except Err (List Expr × Nat)
   | 0, _, _, _ => .error .fuel
   | _ + 1, _, c, [] => .ok ([], c)
@@ -176,119 +185,115 @@ def callSelectCk : Nat → SStack → Nat → List Expr → List String → List
   | fuel + 1, st, c, args, _, _ =>
     match args with
     | source :: transform :: _ =>
-      match transform with
-      | .lam _ _ => do
+      if !isLam transform then .error (.internal "AssertionError") else do
         let (parent, c1) ← simpCk fuel st c source
         if !keyFree st parent then .error (sideErr "source mentions a stack key") else
-        match parent with
-        | .call (.name "Select") pargs _ _ =>
-          (match pargs with
-           | src :: f :: _ =>
-             (match f with
-              | .lam _ _ => do
-                let (conv, c2) ← convoluteCk transform f c1 st
-                let (sel, c3) ← simpCk fuel st c2 conv
-                pure (makeSelect src sel, c3)
-              | _ => .error (.internal "AssertionError"))
-           | _ => .error (.internal "IndexError"))
-        | .call (.name "SelectMany") pargs _ _ =>
-          (match pargs with
-           | src :: f :: _ =>
-             (match f with
-              | .lam fps fb =>
-                if disjoint fps (fv transform) then
-                  simpCk fuel st c1 (fcall "SelectMany" [src, .lam fps (makeSelect fb transform)])
-                else .error (sideErr "Select nested under SelectMany's parameter")
-              | _ => .error (.internal "AssertionError"))
-           | _ => .error (.internal "IndexError"))
-        | _ => do
+        let dflt : Except Err (Expr × Nat) := do
           let (sel, c2) ← simpCk fuel st c1 transform
           pure (makeSelect parent sel, c2)
-      | _ => .error (.internal "AssertionError")
+        match opCall? parent with
+        | some (n, pargs) =>
+          if n = "Select" then
+            (match pargs with
+             | src :: f :: _ =>
+               if !isLam f then .error (.internal "AssertionError") else do
+                 let (conv, c2) ← convoluteCk transform f c1 st
+                 let (sel, c3) ← simpCk fuel st c2 conv
+                 pure (makeSelect src sel, c3)
+             | _ => .error (.internal "IndexError"))
+          else if n = "SelectMany" then
+            (match pargs with
+             | src :: f :: _ =>
+               (match f with
+                | .lam fps fb =>
+                  if disjoint fps (fv transform) then
+                    simpCk fuel st c1 (fcall "SelectMany" [src, .lam fps (makeSelect fb transform)])
+                  else .error (sideErr "Select nested under SelectMany's parameter")
+                | _ => .error (.internal "AssertionError"))
+             | _ => .error (.internal "IndexError"))
+          else dflt
+        | Option.none => dflt
     | _ => .error (.internal "IndexError")
 def callSelectManyCk : Nat → SStack → Nat → List Expr → List String → List Expr → Except Err (Expr × Nat)
   | 0, _, _, _, _, _ => .error .fuel
   | fuel + 1, st, c, args, _, _ =>
     match args with
     | source :: selection :: _ =>
-      match selection with
-      | .lam _ _ => do
+      if !isLam selection then .error (.internal "AssertionError") else do
         let (parent, c1) ← simpCk fuel st c source
         if !keyFree st parent then .error (sideErr "source mentions a stack key") else
-        match parent with
-        | .call (.name "SelectMany") pargs _ _ =>
-          (match pargs with
-           | [seq, f] =>
-             (match f with
-              | .lam (p :: prest) fb =>
-                if !(fv selection).contains p && prest.isEmpty then
-                  simpCk fuel st c1 (fcall "SelectMany" [seq, .lam [p] (fcall "SelectMany" [fb, selection])])
-                else .error (sideErr "SelectMany nested under SelectMany's parameter")
-              | .lam [] _ => .error (.internal "IndexError")
-              | _ => .error (.internal "AssertionError"))
-           | _ => .error (.internal "AssertionError"))
-        | .call (.name "Select") pargs _ _ =>
-          (match pargs with
-           | [seq, f] =>
-             (match f with
-              | .lam _ _ => do
-                let (conv, c2) ← convoluteCk selection f c1 st
-                let (sel, c3) ← simpCk fuel st c2 conv
-                pure (fcall "SelectMany" [seq, sel], c3)
-              | _ => .error (.internal "AssertionError"))
-           | _ => .error (.internal "AssertionError"))
-        | _ => do
+        let dflt : Except Err (Expr × Nat) := do
           let (sel, c2) ← simpCk fuel st c1 selection
           pure (fcall "SelectMany" [parent, sel], c2)
-      | _ => .error (.internal "AssertionError")
+        match opCall? parent with
+        | some (n, pargs) =>
+          if n = "SelectMany" then
+            (match pargs with
+             | [seq, f] =>
+               (match f with
+                | .lam (p :: prest) fb =>
+                  if !(fv selection).contains p && prest.isEmpty then
+                    simpCk fuel st c1 (fcall "SelectMany" [seq, .lam [p] (fcall "SelectMany" [fb, selection])])
+                  else .error (sideErr "SelectMany nested under SelectMany's parameter")
+                | .lam [] _ => .error (.internal "IndexError")
+                | _ => .error (.internal "AssertionError"))
+             | _ => .error (.internal "AssertionError"))
+          else if n = "Select" then
+            (match pargs with
+             | [seq, f] =>
+               if !isLam f then .error (.internal "AssertionError") else do
+                 let (conv, c2) ← convoluteCk selection f c1 st
+                 let (sel, c3) ← simpCk fuel st c2 conv
+                 pure (fcall "SelectMany" [seq, sel], c3)
+             | _ => .error (.internal "AssertionError"))
+          else dflt
+        | Option.none => dflt
     | _ => .error (.internal "IndexError")
 def callWhereCk : Nat → SStack → Nat → List Expr → List String → List Expr → Except Err (Expr × Nat)
   | 0, _, _, _, _, _ => .error .fuel
   | fuel + 1, st, c, args, _, _ =>
     match args with
     | source :: filter :: _ =>
-      match filter with
-      | .lam _ _ => do
+      if !isLam filter then .error (.internal "AssertionError") else do
         let (parent, c1) ← simpCk fuel st c source
         if !keyFree st parent then .error (sideErr "source mentions a stack key") else
-        match parent with
-        | .call (.name "Where") pargs _ _ =>
-          (match pargs with
-           | src :: f :: _ =>
-             (match f with
-              | .lam _ _ =>
-                let x := argName c1
-                let conv := Expr.lam [x] (.op .boolAnd [.call f [.name x] [] [], .call filter [.name x] [] []])
-                if !(fv f).contains x && !(fv filter).contains x then
-                  simpCk fuel st (c1 + 1) (fcall "Where" [src, conv])
-                else .error (sideErr "fresh conjunction variable")
-              | _ => .error (.internal "AssertionError"))
-           | _ => .error (.internal "IndexError"))
-        | .call (.name "Select") pargs _ _ =>
-          (match pargs with
-           | src :: f :: _ =>
-             (match f with
-              | .lam _ _ => do
-                let (conv, c2) ← convoluteCk filter f c1 st
-                let (w, c3) ← simpCk fuel st c2 conv
-                if keyFree st (makeSelect (fcall "Where" [src, w]) f) then simpCk fuel st c3 (makeSelect (fcall "Where" [src, w]) f)
-                else .error (sideErr "filter mentions a stack key")
-              | _ => .error (.internal "AssertionError"))
-           | _ => .error (.internal "IndexError"))
-        | .call (.name "SelectMany") pargs _ _ =>
-          (match pargs with
-           | seq :: f :: _ =>
-             (match f with
-              | .lam fps fb =>
-                if disjoint fps (fv filter) then
-                  simpCk fuel st c1 (fcall "SelectMany" [seq, .lam fps (fcall "Where" [fb, filter])])
-                else .error (sideErr "Where nested under SelectMany's parameter")
-              | _ => .error (.internal "AssertionError"))
-           | _ => .error (.internal "IndexError"))
-        | _ => do
+        let dflt : Except Err (Expr × Nat) := do
           let (f', c2) ← simpCk fuel st c1 filter
           if lambdaIsTrue f' then pure (parent, c2) else pure (fcall "Where" [parent, f'], c2)
-      | _ => .error (.internal "AssertionError")
+        match opCall? parent with
+        | some (n, pargs) =>
+          if n = "Where" then
+            (match pargs with
+             | src :: f :: _ =>
+               if !isLam f then .error (.internal "AssertionError") else
+                 let x := argName c1
+                 let conv := Expr.lam [x] (.op .boolAnd [.call f [.name x] [] [], .call filter [.name x] [] []])
+                 if !(fv f).contains x && !(fv filter).contains x then
+                   simpCk fuel st (c1 + 1) (fcall "Where" [src, conv])
+                 else .error (sideErr "fresh conjunction variable")
+             | _ => .error (.internal "IndexError"))
+          else if n = "Select" then
+            (match pargs with
+             | src :: f :: _ =>
+               if !isLam f then .error (.internal "AssertionError") else do
+                 let (conv, c2) ← convoluteCk filter f c1 st
+                 let (w, c3) ← simpCk fuel st c2 conv
+                 if keyFree st (makeSelect (fcall "Where" [src, w]) f) then
+                   simpCk fuel st c3 (makeSelect (fcall "Where" [src, w]) f)
+                 else .error (sideErr "filter mentions a stack key")
+             | _ => .error (.internal "IndexError"))
+          else if n = "SelectMany" then
+            (match pargs with
+             | seq :: f :: _ =>
+               (match f with
+                | .lam fps fb =>
+                  if disjoint fps (fv filter) then
+                    simpCk fuel st c1 (fcall "SelectMany" [seq, .lam fps (fcall "Where" [fb, filter])])
+                  else .error (sideErr "Where nested under SelectMany's parameter")
+                | _ => .error (.internal "AssertionError"))
+             | _ => .error (.internal "IndexError"))
+          else dflt
+        | Option.none => dflt
     | _ => .error (.internal "IndexError")
 end
 
